@@ -171,7 +171,7 @@ CANARIES = [
     ('cursor-new-starts-as-already-polled', 'C08', 'src/cursor.rs', '            stack: Vec::new(),\n            next_called: false,', '            stack: Vec::new(),\n            next_called: true,'),
     ('cursor-new-drops-write-permission', 'C08', 'src/cursor.rs', '            freelist: b.freelist.clone(),\n            writable: b.writable,\n            stack: Vec::new(),', '            freelist: b.freelist.clone(),\n            writable: false,\n            stack: Vec::new(),'),
     # E13: a bucket deletion refuses every open handle below the deleted bucket
-    ('tree-delete-bucket-marks-only-itself', 'C05', 'src/bucket.rs', '        b.mark_deleted();\n', '        b.deleted = true;\n'),
+    ('delete-bucket-marks-only-itself', 'C05', 'src/bucket.rs', '        b.mark_deleted();\n', '        b.deleted = true;\n'),
     ('mark-deleted-stops-at-the-children', 'C05', 'src/bucket.rs', '            child.borrow_mut().mark_deleted();', '            child.borrow_mut().deleted = true;'),
     ('mark-deleted-forgets-itself', 'C05', 'src/bucket.rs', '    fn mark_deleted(&mut self) {\n        self.deleted = true;\n', '    fn mark_deleted(&mut self) {\n'),
 ]
